@@ -565,7 +565,7 @@ Entry ==                                        \* getentry(), prepare(): still 
        ELSE /\ kind' = IF mode = "info" THEN "info" ELSE e.kind
             /\ todo' = OkPlan(fam, m, mode, e.kind, e.n, hname \in SizedHandlers, hname = "CompressedFileHandler", rq.nw,
                               hname \in {"ExecHandler", "CompressedFileHandler"} /\ ~rq.tls)
-            /\ SetSite(IF fam = "GP" /\ mode = "doc" /\ hname = "CompressedFileHandler" THEN "GzSize" ELSE "none")
+            /\ SetSite(IF fam = "GP" /\ mode # "info" /\ hname = "CompressedFileHandler" THEN "GzSize" ELSE "none")
             /\ fds' = fds \cup e.opens
             /\ fs' = IF mode = "info" THEN fs ELSE Leaves(hname, sel, rq.hl, fs)
             /\ pc' = "write" /\ UNCHANGED <<exc, log>>
